@@ -65,12 +65,16 @@ func c13Case(c *lib.Ctx, idx uint64) {
 		c.Violation(b, "harness: model failed: %v", err)
 		return
 	}
-	f, derr, out := lib.GuardedDecode(b)
+	// the decode options rotate through the cases (none, logger, unknown lists, all, in every
+	// order): which definition a record is read with does not depend on them
+	optMask := int(idx / 3 % 8)
+	f, derr, out := lib.GuardedDecode(b, optionList(optMask, &countingLogger{}, idx)...)
 	c.Eval()
 	if out.Panicked || out.Hang {
-		c.Violation(b, "Decode panicked/hung: %s\n%s", out.Panic, out.Stack)
+		c.Violation(b, "Decode (option set %d) panicked/hung: %s\n%s", optMask, out.Panic, out.Stack)
 		return
 	}
+	c.Count(fmt.Sprintf("decodes_with_option_set_%d", optMask), 1)
 	// Skip: component destinations (C18) and the timestamp of compressed records (C12).
 	cs := compSkip(plan, ex)
 	prof := lib.Profile()
